@@ -17,8 +17,8 @@ from ..order import Interp
 from ..algebra_lin import linear_form
 
 COL = "typhon/collocations/collocator.py"
-EXPECT = {"C04.empty": 4, "C04.temporal": 5, "C04.window": 4, "C04.nan": 6, "C04.swap": 4, "C04.offsets": 7,
-          "C04.cache": 3, "C04.interval": 1}
+EXPECT = {"C04.empty": 4, "C04.temporal": 5, "C04.window": 4, "C04.nan": 7, "C04.swap": 4, "C04.offsets": 7,
+          "C04.cache": 4, "C04.interval": 1}
 
 
 def rule_empty(ctx):
@@ -318,6 +318,26 @@ def rule_nan(ctx):
     oku = okm and all(use.get((p_, fld)) == masks[p_] for p_ in (P1, P2) for fld in ("lat", "lon", "time"))
     ctx.ob("Collocator.collocate.filter", oku, "masks %s; filtered fields %s" % (masks, use),
            "lat, lon and time of each dataset are filtered with that dataset's own not-NaN mask", node=f.node, func=f)
+    # when the filter leaves nothing of one dataset there is no collocation: answer before the tree is built (sklearn raises on 0 samples)
+    filt_names = {}
+    for st in flow.stmts:
+        if isinstance(st, ast.Assign) and isinstance(st.targets[0], ast.Name) and isinstance(st.value, ast.Subscript) and okm \
+                and str(norm(st.value.slice)) in masks.values():
+            filt_names.setdefault(str(norm(st.value.slice)), []).append(st.targets[0].id)
+    searches = [c_ for c_ in calls_in(f.node, ("spatial_search", "spatial_search_with_temporal_binning", "_spatial_search", "_temporal_search"))]
+    eguards = []
+    for st in flow.stmts:
+        if isinstance(st, ast.If) and any(isinstance(x, ast.Return) and x.value is not None and str(norm(x.value)) in ("self.empty", "None") for x in st.body):
+            tested = {n_.id for n_ in ast.walk(st.test) if isinstance(n_, ast.Name)}
+            if all(any(nm_ in tested for nm_ in names_) for names_ in filt_names.values()) and filt_names and ".size" in str(norm(st.test)):
+                eguards.append(st)
+    dom = bool(eguards) and bool(searches) and all(flow.cfg.dominated_by(n_, set(flow.cfg.nodes(eguards[0]))) for c_ in searches for n_ in flow.cfg.nodes(enclosing_stmt(c_)))
+    if not searches:
+        raise AnalysisError("collocate: the search calls were not found")
+    ctx.ob("Collocator.collocate.all_nan", dom, "guards on the filtered sizes before the searches: %s" % ([str(norm(g_.test)) for g_ in eguards] or "none"),
+           "`if not time1.size or not time2.size: return self.empty` dominates every search: points with NaN position are ignored, also when they are all of one dataset "
+           "(sklearn: ValueError, Found array with 0 sample(s))", node=eguards[0] if eguards else f.node, func=f,
+           witness=None if dom else {"primary": "one point with lat = NaN", "raises": "ValueError: Found array with 0 sample(s)"})
     oi_st = [st for st in flow.stmts if isinstance(st, ast.Assign) and isinstance(st.value, (ast.List, ast.Tuple)) and len(st.value.elts) == 2
              and all(calls_in(e_, "arange") for e_ in st.value.elts)]
     oko = False
@@ -655,6 +675,11 @@ def rule_cache(ctx):
     conj = bool(rets) and all(not any(isinstance(n, (ast.Or, ast.BitOr)) for n in ast.walk(r.value)) for r in rets)
     ctx.ob("Collocator._spatial_is_cached.both", pairs_ in (want, alt) and conj, "comparisons: %s" % pairs_,
            "latitudes AND longitudes are each compared with those of the cached index", node=cmp_calls[0] if cmp_calls else f.node, func=f)
+    tolerant = [str(norm(c.func)) for c in cmp_calls if (dotted(c.func) or "").split(".")[-1] in ("allclose", "isclose")]
+    ctx.ob("Collocator._spatial_is_cached.exact", bool(cmp_calls) and not tolerant, "comparison functions: %s" % [str(norm(c.func)) for c in cmp_calls],
+           "exact equality (np.array_equal): np.allclose accepts points that moved by up to ~1e-5 relative (100 m in longitude), they are then searched in the index of "
+           "the old positions", node=cmp_calls[0] if cmp_calls else f.node, func=f,
+           witness=None if (cmp_calls and not tolerant) else {"call 1": "primary at lat 80.0", "call 2": "same object, primary moved 0.0005 deg (55 m) north", "result": "None instead of 5 pairs"})
     # shapes: np.allclose broadcasts - a differently sized point set with equal values would match
     txt = " ".join(norm(r.value) for r in rets)
     uses_equal = any((dotted(c.func) or "").endswith("array_equal") for c in cmp_calls)
